@@ -11,7 +11,7 @@ T1 + T2 <= 7; the oracle demands the two results to be equal on the implementati
 theorems say they must (rules ignoring t: always; block engines: T1 odd)."""
 import numpy as np
 from harness.driver import call_impl, cz, cnat, cbool, czlist, cgrid, chist, clist, cres, cpair
-from harness.twins import make_rule, coq_rule_spec
+from harness.twins import make_rule, coq_rule_spec, Scribble, PredLt
 from harness.props.c06 import rand_rule, rand_hist, ints, MEMOS, DTYPES, build_ca, build_rule, conv
 
 ID = 'C05'
@@ -20,7 +20,13 @@ COQ_IMPORTS = ('From CPL Require Import Model.Base Model.Rules Model.Engine Mode
 NONTRIVIAL_RULE = ('non-trivial = the call(s) returned and at least one new row was computed (T >= 2, or T1 + T2 >= 3 '
                    'for split cases); distinct = distinct case dicts')
 EXHAUSTIVE = {'quick': False, 'thorough': False}
-NOTES = ['one-call sweep: every H in 1..4 x T in 1..5 on every engine (evolve, evolve2d with both neighbourhood types, '
+NOTES = ['review buckets: rule wrapped in twins.Scribble (overwrites its neighbourhood argument after computing), callable '
+         'timesteps (t < T) on the one-call observables, 2D r = 0, 1D 3 <= r <= N, caller arrays that are strided views '
+         '(big[::2], the skipped rows must stay untouched), read-only copies and read-only zero-stride np.broadcast_to views',
+         'bucket split/block/evenT1/*: the open finding block-split-even (known_findings.json): pair/ block reversal and '
+         'rotation on distinct cell values, even T1: both runs are compared with the model, and the oracle reports the '
+         'failing split law, which the driver prints as KNOWN-FINDING',
+         'one-call sweep: every H in 1..4 x T in 1..5 on every engine (evolve, evolve2d with both neighbourhood types, '
          'evolve_block, evolve2d_block), every memoize mode for the pure family, dtypes int32/int64/uint8/float64 cycled '
          'and crossed completely on the smallest configurations',
          'split sweep: every (T1, T2) with T1 + T2 <= 7 on every engine and memoize mode; both the two-call result and '
@@ -208,6 +214,58 @@ def generate(rng, tier):
             T1, T2 = rng.choice(PAIRS)
             yield _plain(rng, 'split/dyadic', dim, shape, r, nb, rng.randint(1, 3), dtype, fam, memo,
                          T1=T1, T2=T2, base=base)
+    # (3c) review buckets: scribbling rule, callable timesteps, r = 0 (2D), r > 2 (1D), unusual caller arrays
+    for k in range(120 if tier == 'quick' else 1200):
+        dim = rng.choice([1, 2])
+        fam, memo = PLAIN[k % 5]
+        special = rng.random() < 0.4
+        if dim == 1:
+            shape = rng.randint(3, 7)
+            r, nb = (rng.randint(3, shape) if special else rng.randint(1, min(shape, 2))), '-'
+        else:
+            shape = (rng.randint(1, 3), rng.randint(1, 3))
+            r, nb = (0 if special else 1), rng.choice(['Moore', 'von Neumann'])
+        extra = {}
+        what = ['scribble', 'callable', 'strided', 'readonly', 'broadcast', 'plain'][k % 6]
+        if what == 'scribble':
+            extra['scribble'] = True
+        elif what == 'callable':
+            extra['callable'] = True
+        elif what != 'plain':
+            extra['layout'] = what
+        if rng.random() < 0.3 and what not in ('scribble',):
+            extra['scribble'] = True
+        H = rng.randint(1, 4)
+        tag = 'review/%dd/%s%s' % (dim, what, '/r0' if (dim == 2 and r == 0) else ('/rbig' if (dim == 1 and r > 2) else ''))
+        if k % 4 < 3:
+            c = _plain(rng, tag, dim, shape, r, nb, H, rng.choice(DTYPES), fam, memo, T=rng.randint(1, 5), **extra)
+        else:
+            T1, T2 = rng.choice(PAIRS)
+            extra.pop('callable', None)
+            c = _plain(rng, tag + '/split', dim, shape, r, nb, H, rng.choice(DTYPES), fam, memo, T1=T1, T2=T2, **extra)
+        if extra.get('layout') == 'broadcast':
+            c['hist'] = [c['hist'][-1]] * len(c['hist'])
+        yield c
+    # (3d) the open finding: block engines, even T1, a t-independent rule whose effect is visible
+    for k in range(20 if tier == 'quick' else 120):
+        T1, T2 = rng.choice([(a, b) for a, b in PAIRS if a % 2 == 0 and b >= 2])
+        if k % 2 == 0:
+            N, b = rng.choice([(4, 2), (6, 2), (6, 3), (8, 4), (8, 2)])
+            rule = rng.choice([{'fam': 'rev'}, {'fam': 'rot', 'k': 1}])
+            c = _block(rng, 'split/block/evenT1/1d', 1, N, b, 1 + k % 3, DTYPES[k % 4], rule, T1=T1, T2=T2)
+            c['hist'] = [rng.sample(range(1, 60), N) for _ in c['hist']]
+        else:
+            shape, bs = rng.choice([((2, 2), (2, 2)), ((4, 2), (2, 2)), ((2, 4), (2, 2)), ((4, 4), (2, 2)), ((2, 6), (2, 3))])
+            rule = rng.choice([{'fam': 'rev'}, {'fam': 'roll', 'k1': 1, 'k2': 1}, {'fam': 'roll', 'k1': 0, 'k2': 1}])
+            c = _block(rng, 'split/block/evenT1/2d', 2, shape, list(bs), 1 + k % 3, DTYPES[k % 4], rule, T1=T1, T2=T2)
+            R, C = shape
+            hist = []
+            for _ in c['hist']:
+                vals = rng.sample(range(1, 90), R * C)
+                hist.append([vals[i * C:(i + 1) * C] for i in range(R)])
+            c['hist'] = hist
+        c['finding'] = 'block-split-even'
+        yield c
     # (4) random larger
     n_rand = 150 if tier == 'quick' else 2500
     for _ in range(n_rand):
@@ -231,7 +289,8 @@ def generate(rng, tier):
 # ---------------------------------------------------------------- implementation
 def _rule_obj(c):
     if c['eng'] == 'plain':
-        return build_rule(c)
+        f = build_rule(c)
+        return Scribble(f) if c.get('scribble') else f
     return Blk1(c['rule']) if c['dim'] == 1 else Blk2(c['rule'])
 
 
@@ -245,16 +304,41 @@ def _call(cpl, c, ca, T, rule):
     return cpl.evolve2d_block(ca, block_size=tuple(c['bs']), timesteps=T, apply_rule=rule)
 
 
+
+def make_ca(c):
+    """the caller's array, possibly a strided view of a bigger array or read-only; returns (ca, owner)"""
+    ca = build_ca(c)
+    lay = c.get('layout')
+    if lay == 'strided':
+        big = np.zeros((2 * ca.shape[0],) + ca.shape[1:], dtype=ca.dtype)
+        big[::2] = ca
+        return big[::2], big
+    if lay == 'readonly':
+        ca = ca.copy()
+        ca.setflags(write=False)
+        return ca, ca
+    if lay == 'broadcast':      # zero-stride, read-only: all rows are the same row
+        v = np.broadcast_to(ca[-1], ca.shape)
+        assert not v.flags.writeable
+        return v, ca[-1]
+    return ca, ca
+
+
+def _pad_ok(c, owner):
+    """rows of the bigger array that are not part of the caller's view are still zero"""
+    return bool((owner[1::2] == 0).all()) if c.get('layout') == 'strided' else True
+
 def _arr(c, x):
     return conv(c, np.asarray(x))
 
 
 def run_impl(c):
     import cellpylib as cpl
-    ca = build_ca(c)
+    ca, owner = make_ca(c)
     if 'T' in c:
-        res = call_impl(lambda: _call(cpl, c, ca, c['T'], _rule_obj(c)))
-        after = conv(c, ca)
+        ts = PredLt(c['T']) if c.get('callable') else c['T']
+        res = call_impl(lambda: _call(cpl, c, ca, ts, _rule_obj(c)))
+        after = conv(c, ca) if _pad_ok(c, owner) else None
         if res[0] != 'ok':
             return ['exc', res[1], {'after': after}]
         out = res[1]
@@ -262,7 +346,7 @@ def run_impl(c):
         return ['ok', {'out': _arr(c, out), 'after': after,
                        'dtype': str(out.dtype) if isarr else type(out).__name__,
                        'shape': [int(s) for s in np.asarray(out).shape],
-                       'fresh': bool(isarr and out is not ca and not np.shares_memory(out, ca))}]
+                       'fresh': bool(isarr and out is not ca and not np.shares_memory(out, owner))}]
     rule = _rule_obj(c)
 
     def two():
@@ -273,7 +357,7 @@ def run_impl(c):
     rw = call_impl(lambda: _call(cpl, c, ca2, c['T1'] + c['T2'] - 1, _rule_obj(c)))
     return ['ok', {'split': ['ok', _arr(c, rs[1])] if rs[0] == 'ok' else list(rs),
                    'whole': ['ok', _arr(c, rw[1])] if rw[0] == 'ok' else list(rw),
-                   'after': conv(c, ca)}]
+                   'after': conv(c, ca) if _pad_ok(c, owner) else None}]
 
 
 # ---------------------------------------------------------------- Coq
@@ -344,6 +428,9 @@ def oracle(c, obs):
     if o['split'][0] != 'ok' or o['whole'][0] != 'ok':
         return 'a call raised: split %s, unsplit %s' % (o['split'][:2] if o['split'][0] != 'ok' else 'ok',
                                                         o['whole'][:2] if o['whole'][0] != 'ok' else 'ok')
+    if c.get('finding') == 'block-split-even' and o['split'][1] != o['whole'][1]:
+        return ('split law fails for even T1: evolve(evolve(h, %d), %d) differs from evolve(h, %d) on a block engine'
+                % (c['T1'], c['T2'], c['T1'] + c['T2'] - 1))
     must = (not tdep(c)) and (c['eng'] == 'plain' or c['T1'] % 2 == 1)
     if must and o['split'][1] != o['whole'][1]:
         return 'evolve(evolve(h, %d), %d) differs from evolve(h, %d)' % (c['T1'], c['T2'], c['T1'] + c['T2'] - 1)
